@@ -13,7 +13,7 @@ import traceback
 
 from vlib import coq
 
-ROOT = '/verif'
+ROOT = os.environ.get('VERIF_ROOT', '/verif')
 EVID = os.path.join(ROOT, 'evidence')
 REPLAYS = os.path.join(ROOT, 'replays')
 FINDINGS = os.path.join(ROOT, 'known_findings.txt')
